@@ -106,7 +106,7 @@ func (s *Store) key(t *Term) string {
 	b.WriteString(strconv.Itoa(t.S.W))
 	b.WriteByte('|')
 	switch t.Op {
-	case "var", "uf":
+	case "var", "uf", "ufvar":
 		b.WriteString(t.Name)
 	case "bvconst":
 		b.WriteString(strconv.FormatUint(t.BV, 16))
@@ -199,7 +199,7 @@ func (s *Store) appP(op string, so Sort, p1, p2 int, args ...*Term) *Term {
 
 // fold evaluates all-constant applications (except UFs).
 func (s *Store) fold(t *Term) *Term {
-	if t.Op == "uf" {
+	if t.Op == "uf" || t.Op == "ufvar" {
 		return s.mk(t)
 	}
 	for _, a := range t.Args {
@@ -480,9 +480,15 @@ func (s *Store) FPPred(op string, a *Term) *Term { return s.app(op, SBool, a) }
 
 // UF application (sound over-approximation of an operation the solver
 // cannot reason about precisely).
+// Applications are Ackermannised: each distinct application is a fresh
+// variable ("ufvar") and BuildScript adds the congruence constraints between
+// the applications of the same function that occur in a query. That keeps
+// models evaluable by Eval.
 func (s *Store) UF(name string, so Sort, args ...*Term) *Term {
-	return s.mk(&Term{Op: "uf", Name: name, S: so, Args: args})
+	return s.mk(&Term{Op: "ufvar", Name: name, S: so, Args: args})
 }
+
+func (t *Term) ufVarName() string { return fmt.Sprintf("uf!%s!%d", t.Name, t.id) }
 
 // ---------------------------------------------------------------- Real (EXACT twin)
 
@@ -746,6 +752,12 @@ func Eval(t *Term, m Model, cache map[*Term]Val) (Val, bool) {
 		return v, true
 	case "uf":
 		return Val{}, false
+	case "ufvar":
+		v, ok := m[t.ufVarName()]
+		if !ok {
+			return Val{}, false
+		}
+		return v, true
 	}
 	if t.IsConst() {
 		return constVal(t), true
@@ -1005,6 +1017,7 @@ func realLit(r *big.Rat) string {
 // boolean terms. intVars: declare IntVar reals as Int (witness search).
 type Script struct {
 	Text    string
+	UFVars  []*Term
 	Vars    []*Term
 	HasUF   bool
 	HasReal bool
@@ -1051,6 +1064,9 @@ func BuildScript(asserts []*Term, intVars bool) *Script {
 		switch t.Op {
 		case "var":
 			sc.Vars = append(sc.Vars, t)
+		case "ufvar":
+			sc.UFVars = append(sc.UFVars, t)
+			sc.HasUF = true
 		case "uf":
 			sc.HasUF = true
 			if _, ok := ufs[t.Name]; !ok {
@@ -1073,6 +1089,9 @@ func BuildScript(asserts []*Term, intVars bool) *Script {
 			so = "Int"
 		}
 		fmt.Fprintf(&sb, "(declare-const %s %s)\n", smtName(v.Name), so)
+	}
+	for _, v := range sc.UFVars {
+		fmt.Fprintf(&sb, "(declare-const %s %s)\n", smtName(v.ufVarName()), v.S.smt())
 	}
 	ufNames := make([]string, 0, len(ufs))
 	for n := range ufs {
@@ -1115,6 +1134,8 @@ func BuildScript(asserts []*Term, intVars bool) *Script {
 				return "(to_real " + smtName(t.Name) + ")"
 			}
 			return smtName(t.Name)
+		case "ufvar":
+			return smtName(t.ufVarName())
 		case "true", "false":
 			return t.Op
 		case "bvconst":
@@ -1168,7 +1189,7 @@ func BuildScript(asserts []*Term, intVars bool) *Script {
 	}
 	n := 0
 	for _, t := range order {
-		if len(t.Args) == 0 {
+		if len(t.Args) == 0 || t.Op == "ufvar" {
 			continue
 		}
 		if refs[t] > 1 || len(t.Args) > 0 && termDepthGE(t, 6) {
@@ -1177,6 +1198,34 @@ func BuildScript(asserts []*Term, intVars bool) *Script {
 			nm := fmt.Sprintf("t!%d", t.id)
 			fmt.Fprintf(&sb, "(define-fun %s () %s %s)\n", nm, t.S.smt(), e)
 			names[t] = nm
+		}
+	}
+	// congruence between applications of the same function
+	for x := 0; x < len(sc.UFVars); x++ {
+		for y := x + 1; y < len(sc.UFVars); y++ {
+			a, b := sc.UFVars[x], sc.UFVars[y]
+			if a.Name != b.Name || len(a.Args) != len(b.Args) || a.S != b.S {
+				continue
+			}
+			eqs := func(perm []int) string {
+				var parts []string
+				for k := range a.Args {
+					parts = append(parts, "(= "+ref(a.Args[k])+" "+ref(b.Args[perm[k]])+")")
+				}
+				if len(parts) == 1 {
+					return parts[0]
+				}
+				return "(and " + strings.Join(parts, " ") + ")"
+			}
+			ra, rb := smtName(a.ufVarName()), smtName(b.ufVarName())
+			id := make([]int, len(a.Args))
+			for k := range id {
+				id[k] = k
+			}
+			fmt.Fprintf(&sb, "(assert (=> %s (= %s %s)))\n", eqs(id), ra, rb)
+			if a.Name == "fmul" && len(a.Args) == 2 {
+				fmt.Fprintf(&sb, "(assert (=> %s (= %s %s)))\n", eqs([]int{1, 0}), ra, rb)
+			}
 		}
 	}
 	for _, a := range asserts {
@@ -1233,7 +1282,7 @@ func (t *Term) String() string {
 			as = append(as, f(a, d+1))
 		}
 		op := t.Op
-		if op == "uf" {
+		if op == "uf" || op == "ufvar" {
 			op = t.Name
 		}
 		if op == "extract" {
